@@ -167,12 +167,15 @@ def hornerFlat (shape idx : List Nat) : Nat :=
   | _ :: s, i :: rest => (List.zip s rest).foldl (fun acc p => acc * p.1 + p.2) i
   | _, _ => 0
 
+/-- one `indices[:1] = divmod(indices[0], n)` -/
+def unravelStep (acc : List Nat) (n : Nat) : List Nat :=
+  match acc with
+  | k :: t => (k / n) :: (k % n) :: t
+  | [] => []
+
 /-- `indices = [flat]; for n in reversed(shape[1:]): indices[:1] = divmod(indices[0], n)` -/
 def unravelLoop (shape : List Nat) (flat : Nat) : List Nat :=
-  (shape.drop 1).reverse.foldl (fun (acc : List Nat) n =>
-    match acc with
-    | k :: t => (k / n) :: (k % n) :: t
-    | [] => []) [flat]
+  (shape.drop 1).reverse.foldl unravelStep [flat]
 
 /-- `ArgSort`: `numpy.argsort(array, kind='stable')` -/
 def argsortStable (f : List Nat) : List Nat :=
